@@ -86,6 +86,58 @@ func sequentialWrappers(r *lib.Report, tier string) (int64, int64, []interface{}
 		}
 	}
 	vsched.PoolRetain = 0
+	// what the wrappers carry is opaque to them: the payload table (nil, typed nil pointers, zero values, equal
+	// but distinct pointers, an error value ...) through every removal entry point, every rotation of the table
+	pay := lib.Payloads()
+	for rot := range pay {
+		for _, mode := range []string{"poll", "take", "pop"} {
+			trans++
+			states++
+			l := fpgo.NewLinkedListQueue[interface{}]()
+			cq := fpgo.NewConcurrentQueue[interface{}](l)
+			cs := fpgo.NewConcurrentStack[interface{}](l)
+			fail := ""
+			p := lib.Catch(func() {
+				var in []interface{}
+				for i := range pay {
+					v := pay[(rot+i)%len(pay)]
+					in = append(in, v)
+					if i%2 == 0 {
+						cq.Offer(v)
+					} else {
+						cq.Put(v)
+					}
+				}
+				for i := range in {
+					var got interface{}
+					var err error
+					want := in[i]
+					switch mode {
+					case "poll":
+						got, err = cq.Poll()
+					case "take":
+						got, err = cq.Take()
+					default:
+						got, err = cs.Pop()
+						want = in[len(in)-1-i]
+					}
+					if err != nil || lib.Show(got) != lib.Show(want) {
+						fail = fmt.Sprintf("removal %d (%s) returned (%s, %v), the stored value is %s", i+1, mode, lib.Show(got), err, lib.Show(want))
+						return
+					}
+				}
+				if _, err := cq.Poll(); err != fpgo.ErrQueueIsEmpty {
+					fail = fmt.Sprintf("after removing everything Poll returned %v", err)
+				}
+			})
+			if p != "" {
+				fail = "panic: " + p
+			}
+			if fail != "" {
+				r.Violation("C08|sequential|payload", fmt.Sprintf("payload table rotated by %d through ConcurrentQueue / ConcurrentStack over LinkedListQueue[interface{}]: %s", rot, fail), map[string]interface{}{"rotation": rot, "mode": mode})
+			}
+		}
+	}
 	return states, trans, []interface{}{map[string]interface{}{"history": []string{"offer", "push", "poll", "pop", "take"}, "wrapped": "one LinkedListQueue behind ConcurrentQueue and ConcurrentStack"}}
 }
 
